@@ -5,7 +5,7 @@
 # usage: build_misuse.sh <out binary>
 set -e
 OUT=$1
-/verif/harness/build.sh asan -DJLS_VERIF_MRB_BUFFER_SIZE=4096 >/dev/null
+/verif/harness/build.sh asan -DJLS_VERIF_MRB_BUFFER_SIZE=262144 >/dev/null
 REPO=${JLS_REPO:-/repo}
 clang -std=gnu99 -O1 -g -fsanitize=address,undefined -fno-sanitize=alignment -fno-omit-frame-pointer \
   -I$REPO/include -I$REPO/include_prv /verif/harness/misuse_drv.c /verif/build/asan/libjls.a \
